@@ -47,6 +47,34 @@ def rich_frames(log, pos, engine_conns):
     return out, pos
 
 
+class Recorder(object):
+    """a run monitor (called after every simulator step, and once before the first with step None): the frames of the
+    engine's connections per step, with the instant of the step"""
+
+    def __init__(self):
+        self.pos = 0
+        self.steps = []
+        self.start = None           # message id of the start event (published by the API before the first step)
+
+    def __call__(self, s, ea, step):
+        import sim as simmod
+        conns = {i.conn.ident for i in s.instances if i.alive and i.conn is not None}
+        fr, self.pos = rich_frames(s.broker.log, self.pos, conns)
+        if step is None:
+            for f in fr:
+                if f[0] == "e" and self.start is None:
+                    self.start = f[1][1]
+        else:
+            self.steps.append((simmod.CLOCK.ms, fr))
+
+
+def fan_entered(machine, m):
+    """did the (model's) run enter a Parallel / Map state?"""
+    import enginerun
+    fans = enginerun.fanout_names(machine)
+    return any(e[0].endswith("StateEntered") and e[1] in fans for e in m.get("history", []))
+
+
 class Names(object):
     """engine message -> model message number, by address"""
 
@@ -149,8 +177,11 @@ def compare(m, rich_steps, start_mid, fan_entered):
                 end): the engine publishes no more events / requests than the model and the same notifications; its
                 own ledger is sound (every acknowledgement follows its delivery, once; nothing published after an ack);
       skipped   the model has no prediction (fuel, unsupported, several failures at one instant)."""
+    import enginerun
     if m.get("status") not in ("SUCCEEDED", "FAILED") or m.get("tieFail") or "steps" not in m:
         return "skipped", [], 0
+    if enginerun.oracle_order_ambiguous(m):
+        return "skipped.oracle_order", [], 0
     mine = [[model_ms(t), fr] for t, _early, fr in m["steps"] if fr]
     theirs, nm = translate(rich_steps, m["steps"], start_mid)
     probs = []
